@@ -76,6 +76,12 @@ def helper_functions():
                    f'{t} y, double d3, double d4, double d5, double d6, double d7, double d8, double d9, S24 s, long double l2) {{ return y; }}')
     for s in STRUCTS:
         out.append(f'{s} f_{s}({s} x, int k) {{ return x; }}')
+    # lvalue-position forms: a pointer passed through a call, an index computed by a call
+    out.append('static int idx1(int i) { return i; }')
+    for k, (t, a, b) in TYPES.items():
+        out.append(f'static {t} *pid_{k}({t} *p) {{ return p; }}')
+    for s in STRUCTS:
+        out.append(f'static {s} *pid_{s}({s} *p) {{ return p; }}')
     out.append('long v_sum(int n, ...) { va_list ap; va_start(ap, n); long s = 0; for (int i = 0; i < n; i++) s += va_arg(ap, long); va_end(ap); return s; }')
     out.append('double v_dsum(int n, ...) { va_list ap; va_start(ap, n); double s = 0; for (int i = 0; i < n; i++) s += va_arg(ap, double); va_end(ap); return s; }')
     out.append('long double v_ldsum(int n, ...) { va_list ap; va_start(ap, n); long double s = 0; for (int i = 0; i < n; i++) s += va_arg(ap, long double); va_end(ap); return s; }')
@@ -179,6 +185,31 @@ def scalar_forms(k):
         ex('vcall', 'v_dsum(9, 1.0, 2.0, 3.0, 4.0, 5.0, 6.0, 7.0, 8.0, 9.0)')
     if k == 'ldouble':
         ex('vcall', 'v_ldsum(3, 1.0L, 2.0L, 3.0L)')
+    # side effects inside an LVALUE: the statement is an assignment / op-assignment / inc-dec of its own whose lvalue contains a
+    # statement expression with an assignment statement, a comma expression with an assignment, a call, a conditional, or an
+    # index that is an assignment expression (every lvalue designates arr[1], r2 or st.m; arr[1] is re-initialised each time)
+    lvals = [('stmtexpr', 'arr[({ r2 = a; 1; })]'), ('comma', '*(r2 = a, &arr[1])'), ('call', f'*pid_{k}(&arr[idx1(1)])'),
+             ('cond', '*(ji ? &r2 : &arr[1])'), ('idxassign', 'arr[ji = 1]'), ('member_stmtexpr', '({ r2 = a; pst; })->m'),
+             ('stmtexpr_nested', 'arr[({ arr[({ r2 = b; 2; })] = a; 1; })]')]
+    for ln, lv in lvals:
+        F.append((f'lv_{ln}_assign', f'ji = 0; arr[1] = b; ({lv}) = a; r = arr[1];'))
+        F.append((f'lv_{ln}_assign2', f'ji = 0; arr[1] = b; r = ({lv}) = a;'))
+        if k not in ('ptr', 'bool'):
+            F.append((f'lv_{ln}_opassign', f'ji = 0; arr[1] = b; ({lv}) += a; r = arr[1];'))
+            F.append((f'lv_{ln}_opassign2', f'ji = 0; arr[1] = a; ({lv}) -= b; r = arr[1];'))
+            F.append((f'lv_{ln}_preinc', f'ji = 0; arr[1] = b; ++({lv}); r = arr[1];'))
+            F.append((f'lv_{ln}_postdec', f'ji = 0; arr[1] = b; ({lv})--; r = arr[1];'))
+    # nested assignments in call arguments and in conditions
+    if k != 'ptr':
+        F.append(('asg_in_args', f'f_{k}(r = a, r2 = b);'))
+        F.append(('asg_in_args_lv', f'arr[1] = f_{k}(r = a, arr[({{ r2 = b; 2; }})] = b);'))
+    F.append(('asg_in_if', 'if ((r = a)) r2 = b; else r2 = a;'))
+    F.append(('asg_in_while', '{ int j = 0; while ((r = b), j < 2) { r2 = a; j++; } }'))
+    F.append(('asg_in_for', 'for (int j = 0; (r2 = a), j < 2; j++) r = b;'))
+    F.append(('asg_in_cond', '(r = a) ? (r2 = b) : (r2 = a);'))
+    F.append(('asg_in_logand', '(r = a) && (r2 = b);'))
+    F.append(('asg_in_logor', '(r = b) || (r2 = a);'))
+    F.append(('asg_in_not', '!(r = a);'))
     # discard sites
     F.append(('for_inc', 'for (int j = 0; j < 2; j++, a) r = a;'))
     F.append(('for_inc_call', f'for (int j = 0; j < 2; {"f_" + k + "(a, b)" if k != "ptr" else "a + 1"}, j++) r = a;'))
@@ -215,6 +246,15 @@ def struct_forms(s):
     ex('assign_call', f'r = f_{s}(a, 1)')
     ex('castvoid', '(void)a')
     F.append(('for_inc', f'for (int j = 0; j < 2; j++, a) r = a;'))
+    # side effects inside an LVALUE (see scalar_forms)
+    lvals = [('stmtexpr', 'sarr[({ r2 = a; 1; })]'), ('comma', '*(r2 = a, &sarr[1])'), ('call', f'*pid_{s}(&sarr[idx1(1)])'),
+             ('cond', '*(ji ? &r2 : &sarr[1])'), ('idxassign', 'sarr[ji = 1]'),
+             ('stmtexpr_nested', 'sarr[({ sarr[({ r2 = b; 0; })] = a; 1; })]')]
+    for ln, lv in lvals:
+        F.append((f'lv_{ln}_assign', f'ji = 0; ({lv}) = a; r = sarr[1];'))
+        F.append((f'lv_{ln}_assign2', f'ji = 0; r = ({lv}) = a;'))
+    F.append(('asg_in_args', f'f_{s}(r = a, k = 1);'))
+    F.append(('asg_in_cond', '(k ? (r = a) : (r2 = b));'))
     return F
 
 
@@ -223,7 +263,7 @@ def case_function(idx, kind, tkey, name, body):
     if kind == 'scalar':
         t, ia, ib = TYPES[tkey]
         decls = (f'{t} a = {ia}, b = {ib}, r = {ia}, r2 = {ib}; {t} *pa = &a; {t} arr[3] = {{{ia}, {ib}, {ia}}}; '
-                 f'struct {{ int pad; {t} m; }} st = {{1, {ia}}}, *pst = &st; S24 s24 = {{1, 2, 3}}; BF bf = {{1, 2, 3, 1}}; ')
+                 f'struct {{ int pad; {t} m; }} st = {{1, {ia}}}, *pst = &st; S24 s24 = {{1, 2, 3}}; BF bf = {{1, 2, 3, 1}}; int ji = 0; ')
         if tkey in ('int', 'long', 'uint', 'char', 'short', 'ulong'):
             decls += f'_Atomic {t} at = {ia}; '
         reinit = f'a = {ia}; b = {ib}; '
@@ -235,7 +275,8 @@ def case_function(idx, kind, tkey, name, body):
             val = 'printf(" val %ld", (long)r);'
     else:
         s = tkey
-        decls = f'{s} a = {STRUCTS[s]}, b = {STRUCTS[s]}, r = {STRUCTS[s]}, r2 = {STRUCTS[s]}; int k = 1; '
+        decls = (f'{s} a = {STRUCTS[s]}, b = {STRUCTS[s]}, r = {STRUCTS[s]}, r2 = {STRUCTS[s]}; int k = 1; int ji = 0; '
+                 f'{s} sarr[2] = {{{STRUCTS[s]}, {STRUCTS[s]}}}; ')
         reinit = 'k = !k; '
         val = 'printf(" val %d", (int)((unsigned char *)&r)[0]);'
     return (f'static void case_{idx}(long n) {{\n  {decls}\n'
